@@ -122,7 +122,7 @@ class Acc:
             "transitions": self.transitions,
             "paths": self.paths,
             "evaluations": self.evaluations,
-            "outcomes": sorted(self.outcomes),
+            "outcomes": sorted(self.outcomes, key=repr),
             "samples": self.samples,
             "violations": self.violations,
             "violation_count": self.violation_count,
